@@ -1,20 +1,12 @@
-"""Registry entry for C04 (see tools/registry.py)."""
+"""Registry entry for C02 (see tools/registry.py)."""
 
-SPEC = {'id': 'C04',
- 'modules': ['Snowflake.Props.C04', 'Snowflake.Tie.Broker'],
- 'theorems': [('Snowflake.Props.C04', 'Snowflake.Broker.C04.poll_progress'),
-              ('Snowflake.Props.C04', 'Snowflake.Broker.C04.client_progress'),
-              ('Snowflake.Props.C04', 'Snowflake.Broker.C04.ans_progress'),
-              ('Snowflake.Props.C04', 'Snowflake.Broker.C04.poll_completes'),
-              ('Snowflake.Props.C04', 'Snowflake.Broker.C04.client_completes'),
-              ('Snowflake.Props.C04', 'Snowflake.Broker.C04.answer_completes'),
-              ('Snowflake.Props.C04', 'Snowflake.Broker.C04.gauge_matches_map'),
-              ('Snowflake.Props.C04', 'Snowflake.Broker.C04.quiescent_clean'),
-              ('Snowflake.Props.C04', 'Snowflake.Broker.C04.quiescent_fresh_client_denied'),
-              ('Snowflake.Props.C04', 'Snowflake.Broker.C04.pinned_poll_timeout_vs_match_deadlocks'),
-              ('Snowflake.Props.C04', 'Snowflake.Broker.C04.pinned_answer_vs_client_timeout_deadlocks'),
-              ('Snowflake.Props.C04', 'Snowflake.Broker.C04.pinned_early_answer_deadlocks'),
-              ('Snowflake.Props.C04', 'Snowflake.Broker.C04.fixed_same_schedules_complete')],
+SPEC = {'id': 'C02',
+ 'modules': ['Snowflake.Props.C02', 'Snowflake.Tie.Broker'],
+ 'theorems': [('Snowflake.Props.C02', 'Snowflake.Broker.C02.returned_answer_is_matched_proxys'),
+              ('Snowflake.Props.C02', 'Snowflake.Broker.C02.offer_handed_at_most_once'),
+              ('Snowflake.Props.C02', 'Snowflake.Broker.C02.poll_reply_carries_its_one_offer'),
+              ('Snowflake.Props.C02', 'Snowflake.Broker.C02.relay_url_is_bridge_of_fingerprint'),
+              ('Snowflake.Props.C02', 'Snowflake.Broker.C02.unknown_fingerprint_never_matched')],
  'ties': [('Snowflake.Tie.Broker', 'Snowflake.Tie.Broker.skel_Broker_tie'),
           ('Snowflake.Tie.Broker', 'Snowflake.Tie.Broker.skel_RequestOffer_tie'),
           ('Snowflake.Tie.Broker', 'Snowflake.Tie.Broker.skel_AddSnowflake_tie'),
@@ -28,7 +20,7 @@ SPEC = {'id': 'C04',
           ('Snowflake.Tie.Broker', 'Snowflake.Tie.Broker.skel_heap_Pop_tie'),
           ('Snowflake.Tie.Broker', 'Snowflake.Tie.Broker.timeouts_positive'),
           ('Snowflake.Tie.Broker', 'Snowflake.Tie.Broker.nat_names_distinct')],
- 'harness': [{'pkg': 'broker', 'test': 'TestVerifC04$', 'timeout': '30m'}],
+ 'harness': [{'pkg': 'broker', 'test': 'TestVerifC02$', 'timeout': '30m'}],
  'overlay': {'broker/zz_verif_core_test.go': 'broker_core_test.go'},
  'rule': 'cases = independent real brokers (NewBrokerContext + Broker goroutine + IPC methods) each driven through a '
          'generated quiet history (polls with generated NAT type incl. absent/empty and client counts, clients with '
@@ -37,18 +29,20 @@ SPEC = {'id': 'C04',
          "plus forced-race schedules (timer between two lock acquisitions, forced with the package's own "
          'snowflakeLock) compared with explicit label traces; non-trivial = at least one event; distinct = distinct '
          '(class, event list)',
- 'level_text': 'From every reachable state of the broker model every unfinished poll / client / answer request is '
-               'driven to its response by at most 8 / 6 / 2 system steps (timer firings included), proved by a rank '
-               'argument over an inductive invariant; at quiescence both heaps and the id map are empty, the gauge is '
-               '0 and a fresh client is denied. The originally pinned skeleton has kernel-checked deadlock witnesses; '
-               'both defects were re-found on the real broker by forced schedules and repaired (fix: commits).',
+ 'level_text': "Kernel-checked invariants over every reachable state of an interleaving model of the broker's "
+               'rendezvous core (unbounded numbers of polls, clients, answers, all interleavings, all timer firings, '
+               "all bridge lists): a returned answer was posted for the session that was handed this client's offer; "
+               "an offer goes to at most one poll; a poll's reply carries its one offer and the relay URL of the "
+               'bridge the client named; unknown fingerprints are never matched. The model is tied to the source by '
+               'regenerated synchronisation skeletons and by replaying real broker histories (in-process, real IPC '
+               'methods) on the model.',
  'level_note': 'Trusted: Lean kernel; the hand-written LTS (atomic critical sections, rendezvous channels, abstract '
                'time: timers are nondeterministic; pools abstracted to sets with a clients-minimal pop - '
                'container/heap itself is verified separately in Base/Heap for C17 and tied by skeleton + observed on '
                "the real heaps); poll identity = session id (pairwise distinct ids are in the property's quantifier); "
                'net/http, prometheus and geoip are outside the model; Go mutex FIFO hand-off is used by the forcing '
                'harness only, never by a theorem.',
- 'design_ref': 'DESIGN.md §5.4',
+ 'design_ref': 'DESIGN.md §5.2',
  'assumptions': ['timers eventually fire',
                  'session ids of concurrent polls are pairwise distinct',
                  'no system step of another request disables an enabled step (commutation, argued not proved)'],
